@@ -58,7 +58,7 @@ type witnessReq struct {
 	Old    int    // stated old size
 	Size   int    // checkpoint size
 	Proof  string // right wrong foreign truncated overlong empty stale garbage
-	Sig    string // valid invalid unknown unrelated dup validunknown forged wrongtext many
+	Sig    string // valid invalid unknown unrelated otherlog dup validunknown forged wrongtext many
 	Root   string // right garbage
 	Text   string // canonical ext noncanon unparsable
 	Body   string // ok noSep noOld num01 numNeg numPlus numBig numEmpty badHash shortHash
@@ -286,6 +286,14 @@ func (w *witnessRun) build(q *witnessReq) ([]byte, []tlog.Hash) {
 		nb = sign(text, w.foreign[li].Signer)
 	case "unrelated":
 		nb = sign(text, w.other.Signer)
+	case "otherlog":
+		// a genuine signature by the key of ANOTHER log this witness is configured for, under that log's own name, over a
+		// checkpoint that names this origin: known to the witness, but not as a key of this log
+		if n := len(w.setup.Logs); n >= 2 && li >= 0 {
+			nb = sign(text, w.setup.Logs[(li+1)%n].Keys[0].Signer)
+		} else {
+			nb = sign(text, w.other.Signer)
+		}
 	case "dup":
 		nb = sign(text, renamed(logKey, origin))
 		_, sigs, _ := bytes.Cut(nb, []byte("\n\n"))
@@ -409,7 +417,7 @@ func (w *witnessRun) expect(in *witnessInst, q *witnessReq, plan witnessPlan, pr
 		add("404", "unknown log")
 	}
 	switch q.Sig {
-	case "invalid", "unknown", "unrelated", "wrongtext":
+	case "invalid", "unknown", "unrelated", "wrongtext", "otherlog":
 		add("403", "no valid log signature")
 	case "many":
 		add("400", "too many signatures")
@@ -941,7 +949,7 @@ func (w *witnessRun) famSigs(old, size int) {
 	if old > 0 {
 		w.do(in, witnessGood(0, 0, 0, old), witnessOKPlan())
 	}
-	for _, sk := range []string{"invalid", "unknown", "unrelated", "wrongtext", "many", "dup", "validunknown", "forged"} {
+	for _, sk := range []string{"invalid", "unknown", "unrelated", "otherlog", "wrongtext", "many", "dup", "validunknown", "forged"} {
 		q := witnessGood(0, 0, old, size)
 		q.Sig = sk
 		if sk == "dup" || sk == "validunknown" || sk == "forged" {
@@ -1214,7 +1222,7 @@ func (w *witnessRun) famRandom(steps int) {
 			q.Proof = []string{"wrong", "foreign", "truncated", "overlong", "garbage", "stale", "empty", "right"}[w.r.Intn(8)]
 		}
 		if w.r.Chance(15) {
-			q.Sig = []string{"invalid", "unknown", "unrelated", "wrongtext", "dup", "validunknown", "forged"}[w.r.Intn(7)]
+			q.Sig = []string{"invalid", "unknown", "unrelated", "otherlog", "wrongtext", "dup", "validunknown", "forged"}[w.r.Intn(8)]
 		}
 		if w.r.Chance(6) {
 			q.Root = "garbage"
